@@ -4,6 +4,7 @@ import (
 	"encoding/binary"
 	"errors"
 	"fmt"
+	"math"
 )
 
 const (
@@ -132,6 +133,9 @@ var (
 	// ErrPanic and errors wrapping ErrPanic report runtime errors, such
 	// as an index out of bounds or a stack overflow.
 	ErrPanic = errors.New("user error")
+	// ErrOperandOverflow is returned when an operand (constant index, jump
+	// target, element count, variable slot) does not fit the operand width.
+	ErrOperandOverflow = fmt.Errorf("%w: operand overflow", ErrPanic)
 	// ErrUnknownOpcode is returned when an unknown opcode is encountered.
 	ErrUnknownOpcode = fmt.Errorf("%w: unknown opcode", ErrInternal)
 )
@@ -214,7 +218,10 @@ func Make(op Opcode, operands ...int) ([]byte, error) {
 	for i, o := range operands {
 		width := def.OperandWidths[i]
 		if width == 2 {
-			binary.BigEndian.PutUint16(instruction[offset:], uint16(o)) //nolint:gosec // we are just going to be lax about overflow errors at the moment
+			if o < 0 || o > math.MaxUint16 {
+				return nil, fmt.Errorf("%w: operand %d of %s does not fit in 16 bits", ErrOperandOverflow, o, def.Name)
+			}
+			binary.BigEndian.PutUint16(instruction[offset:], uint16(o))
 		}
 		offset += width
 	}
